@@ -54,6 +54,10 @@ PolDir == <<-PsiZ, 0, PsiR>>                \* along the in-plane field
 NrmDir == <<-PsiR, 0, -PsiZ>>               \* poloidal x toroidal
 Degenerate == PsiR = 0 /\ PsiZ = 0          \* magnetic axis: no in-plane field
 
+\* the flux function may be given in any unit: multiplied by 10^e, the normalised flux, the masks, the mapped profiles and
+\* the poloidal / normal directions are unchanged and the in-plane field scales with it (compared for these exponents)
+PsiScaleExps == <<0, -6, 3>>
+
 \* ---- properties at every node
 PsiNNonNegative == PsiN[1] >= 0
 Orthogonal == PolDir[1] * NrmDir[1] + PolDir[3] * NrmDir[3] = 0
